@@ -520,7 +520,7 @@ PROPERTIES = {
                    extra_streams=[{"stream": "linelex", "profile": "all", "quick": 6000, "thorough": 150000, "nontrivial": lambda obs, case: not obs[0].startswith(("LOADERR", "ERR"))},
                                   {"stream": "f64", "profile": "fmt", "quick": 9000, "thorough": 600000, "nontrivial": lambda obs, case: True}],
                    rule="run/lines: lines and option groups over printable ASCII and multi-byte characters with every escapable character escaped or not, 0-2 inline expressions of each type incl. numbers exercising the display forms, tags, option conditions; compared: text, tags and Disabled of every element; linelex/all: line descriptions (first-character rule, escapes at every position class, expressions, tags, conditions, comments) through ANTLR vs the scanner model; f64/fmt: fmt.Sprint/ToString/ParseFloat vs the display model, bit for bit",
-                   leanchecker=["Ysgo.Props.C04", "Ysgo.Props.C04Lex", "Ysgo.Props.C04Display"]),
+                   leanchecker=["Ysgo.Props.C04", "Ysgo.Props.C04Lex", "Ysgo.Props.C04Display", "Ysgo.Props.C19Roundtrip"]),
     "C13": {
         "level": "proof",
         "streams": [{"stream": "markup", "profile": "chunks", "quick": 8000, "thorough": 300000, "predicate": no_panic,
@@ -575,7 +575,8 @@ PROPERTIES = {
     "C10": runprop("cmds", ("res", "log"), ("text",), 1200, 50000,
                    extra_streams=[{"stream": "wait", "profile": "duration", "quick": 5000, "thorough": 300000, "nontrivial": lambda obs, case: obs[0] not in ("0", "9223372036854775807")},
                                   {"stream": "wait", "profile": "shape", "quick": 70, "thorough": 1500, "nontrivial": lambda obs, case: True, "timeout": 1800},
-                                  {"stream": "wait", "profile": "timing", "quick": 24, "thorough": 400, "nontrivial": lambda obs, case: True, "timeout": 1800}],
+                                  {"stream": "wait", "profile": "timing", "quick": 24, "thorough": 400, "nontrivial": lambda obs, case: True, "timeout": 1800},
+                                  {"stream": "wait", "profile": "abandon", "quick": 40, "thorough": 800, "nontrivial": lambda obs, case: True, "timeout": 1800}],
                    nontrivial=lambda obs, case: any(obs_kind(o) == "WAIT" for o in obs) and any(o.startswith("DONE") for o in obs),
                    rule="run/cmds: scripts with commands that complete on return, fail on return, or stay pending until the harness completes them with success or an error after any number of polls; compared: result class and the handler invocation log; non-trivial = a waiting answer and a later completion",
                    leanchecker=["Ysgo.Props.C10"]),
@@ -592,7 +593,10 @@ PROPERTIES = {
         "streams": [{"stream": "bridge", "profile": "sample", "quick": 15000, "thorough": 400000, "predicate": no_panic,
                      "nontrivial": lambda obs, case: any(o.startswith("REG OK") for o in obs)},
                     {"stream": "bridge", "profile": "all", "quick": 0, "thorough": 5161246, "tier": "thorough", "predicate": no_panic,
-                     "nontrivial": lambda obs, case: any(o.startswith("REG OK") for o in obs), "timeout": 7200}],
+                     "nontrivial": lambda obs, case: any(o.startswith("REG OK") for o in obs), "timeout": 7200},
+                    # the result reported for a converted command is that invocation's own (also after an abandoned one)
+                    {"stream": "wait", "profile": "abandon", "quick": 40, "thorough": 800, "nontrivial": lambda obs, case: True, "timeout": 1800},
+                    {"stream": "wait", "profile": "shape", "quick": 40, "thorough": 800, "nontrivial": lambda obs, case: True, "timeout": 1800}],
         "assumptions": ["reflect.Value.Call is modelled by its type-identity rule; Go/amd64 float-to-int conversions by the F64 model (validated by the f64 stream)"],
         "rule": "bridge: function types built with reflect.FuncOf/MakeFunc over 0-3 parameters (+ optional variadic tail) and 0-2 results over {int..int64, uint, float32, float64, bool, string, error, chan error, <-chan error, chan<- error, named variants, struct, slice} x argument lists of length 0-4 over {number incl. fractional, negative, huge, NaN; boolean; string}, plus nil, typed nil functions and non-function values, registered through ConvertAndAddFunction/ConvertAndAddCommand of a real runner and called from a script; sample = seeded slice, all = the complete enumeration (5,161,246 elements) in thorough tier; non-trivial = registration accepted",
         "leanchecker": ["Ysgo.Props.C16"],
@@ -613,10 +617,11 @@ PROPERTIES = {
                     {"stream": "containers", "profile": "stack", "quick": 6000, "thorough": 250000, "predicate": no_panic, "project": lambda obs, case: obs[:1], "nontrivial": lambda obs, case: True},
                     {"stream": "containers", "profile": "queue-exh", "quick": 20000, "thorough": 283000, "predicate": no_panic, "project": lambda obs, case: obs[:1], "nontrivial": lambda obs, case: True},
                     {"stream": "tokens", "profile": "layout", "quick": 3000, "thorough": 200000, "project": lambda obs, case: obs[:2], "nontrivial": lambda obs, case: "I" in obs[0]},
-                    {"stream": "tokens", "profile": "bytes", "quick": 4000, "thorough": 250000, "nontrivial": lambda obs, case: True}],
+                    {"stream": "tokens", "profile": "bytes", "quick": 4000, "thorough": 250000, "nontrivial": lambda obs, case: True},
+                    {"stream": "nexttoken", "profile": "layout", "quick": 3000, "thorough": 200000, "predicate": no_panic, "nontrivial": lambda obs, case: " I" in obs[0]}],
         "assumptions": ["the raw queue state (capacity, first, next) is informational only: the verdict uses results and sizes, so another initial capacity does not alarm"],
-        "rule": "containers: random and phase-structured operation sequences on the real Queue/Stack through the hook; queue-exh enumerates all words over {enq, deq, peek} up to length 11 plus 16k phase sequences forcing three growths from wrapped buffers (every (cap, first, next) for cap 8, 16, 32 is visited); tokens: INDENT/DEDENT/EOF projection of the real lexer on generated scripts in random (also ragged, noisy, mixed tab/space) layouts and on arbitrary bytes (balance predicate)",
-        "leanchecker": ["Ysgo.Props.C20"],
+        "rule": "containers: random and phase-structured operation sequences on the real Queue/Stack through the hook; queue-exh enumerates all words over {enq, deq, peek} up to length 11 plus 16k phase sequences forcing three growths from wrapped buffers (every (cap, first, next) for cap 8, 16, 32 is visited); tokens: INDENT/DEDENT/EOF projection of the real lexer on generated scripts in random (also ragged, noisy, mixed tab/space) layouts and on arbitrary bytes (balance predicate); nexttoken: the complete delivered token stream (ordinary tokens in place, synthetic tokens with their widths) of the real lexer against the NextToken plumbing model pulled over the pending queue and the indent stack",
+        "leanchecker": ["Ysgo.Props.C20", "Ysgo.Props.C20NextToken"],
     },
     "C08": runprop("layout", ("res", "log", "v"), ("text", "dis", "tags"), 1500, 60000, nontrivial=run_nontrivial(2, ()),
                    extra_streams=[{"stream": "tokens", "profile": "layout", "quick": 3000, "thorough": 200000, "nontrivial": lambda obs, case: "I" in obs[0]},
@@ -633,5 +638,5 @@ PROPERTIES = {
                    nontrivial=lambda obs, case: len(probe_values(obs)) >= 5,
                    extra_streams=[{"stream": "f64", "profile": "all", "quick": 20000, "thorough": 1000000, "nontrivial": lambda obs, case: True}],
                    rule="run/numeric: every numeric and conversion built-in applied, through a script, to doubles |x| < 2^52 supplied through the storer (random bit patterns, integers, half-way cases, neighbours of integers, signed zeros, subnormals; n in 0..8) and captured by a host function; the contracts of the property are evaluated on the implementation's results in exact rational arithmetic; f64/all: the softfloat model against the compiler's arithmetic, bit for bit",
-                   leanchecker=["Ysgo.Props.C19"], trusted=["python fractions for the contract predicates"]),
+                   leanchecker=["Ysgo.Props.C19", "Ysgo.Props.C19Roundtrip"], trusted=["python fractions for the contract predicates"]),
 }
